@@ -55,8 +55,8 @@ def gen_loss_case(r, loss, floaty):
     if loss in ("epshinge", "sqepshinge"): par = dy(r, 0, 2, 2)
     if loss == "huber": par = dy(r, 1, 3, 1)
     if loss == "zeroone": par = dy(r, -1, 1, 1)
-    big = floaty and loss == "crossentropy" and r.chance(1, 6)     # exercise the value*label < -200 shortcut and large margins
-    rng = 400 if big else 4
+    big = floaty and loss == "crossentropy" and r.chance(1, 5)     # exercise the value*label < -200 shortcut and large margins
+    rng = (1000 if r.chance(1, 2) else 400) if big else 4           # beyond +-709.78 exp() overflows
     if loss in CLASS:
         classes = 2 if m == 1 else m
         labels = " ".join(str(r.below(classes)) for _ in range(n))
@@ -87,7 +87,7 @@ def run(ctx):
     if not ctx.quick:
         ctx.leanchecker(["SharkVerif.Props.C06"])
     exe = build(ctx); drv = ctx.driver("drv_c06")
-    if not exe or not drv:
+    if not exe:
         return
     r = ctx.rng.fork("c06")
     per = 40 if ctx.quick else 600
@@ -108,14 +108,24 @@ def run(ctx):
         cases.append(["mode float", "errfn | %d %s | %d | %s | %d" % (T, " ".join(map(str, order)), B,
                       " ".join(f"{k}/1" for k in bl), sum(bl))])
     for _ in range(per // 2):
-        x = " ".join(dy(r, -5, 5, 3) for _ in range(r.range(0, 6)))
+        k = r.range(0, 6)
+        x = " ".join(dy(r, -5, 5, 3) for _ in range(k))
         cases.append(["mode rat", f"{r.choice(['onenorm', 'twonorm'])} | {x}"])
+        if k:
+            # masked regularizers: 0/1 masks and per-parameter strengths
+            m = " ".join((str(r.below(2)) if r.chance(1, 2) else dy(r, 0, 3, 1)) for _ in range(k))
+            cases.append(["mode rat", f"{r.choice(['onenorm', 'twonorm'])} | {x} | {m}"])
     for c in cases:
         ctx.hist("op_kinds", " ".join(c[1].split()[:2]) if c[1].split()[0] in ("eval", "deriv") else c[1].split()[0])
     ctx.cov["evaluations"] = len(cases)
     ctx.cov["distinct_nontrivial"] = len({c[1] for c in cases if " | " in c[1] and len(c[1].split("|")) >= 4 and not c[1].split("|")[2].strip().startswith("1 ")})
     ctx.sample({"ops": cases[0]}); ctx.sample({"ops": cases[-1]}); ctx.sample({"ops": cases[len(EXACT) * per + 3]})
-    core.correspond(ctx, "K-C06", cases, [exe], [drv], classify, keep_prefix=1)
+    if drv:
+        core.correspond(ctx, "K-C06", cases, [exe], [drv], classify, keep_prefix=1)
+    else:
+        # the model no longer builds (a regenerated obligation failed): search the implementation alone
+        # for a concrete failing input with the independent oracle
+        core.oracle_only(ctx, "K-C06[oracle-only]", cases, [exe], classify)
 
 
 def replay(ctx, rep):
